@@ -52,6 +52,209 @@ fn class_of(s: &str) -> &'static str {
     }
 }
 
+
+// ---------------------------------------------------------------------------------------------
+// wide alphabet (added after seed C08-4: a predicate written with a non-ASCII `char::is_*` method is only
+// visible on characters on which it differs from its `is_ascii_*` twin)
+
+/// `char::is_numeric` but not an ASCII digit (general categories Nd, Nl, No)
+pub const NUMERIC: &[char] = &[
+    '²', '³', '¹', '¼', '½', '¾', '٠', '٣', '۴', '५', '৩', '๓', '０', '５', '９', 'Ⅷ', 'ⅷ', 'Ⅻ', '①', '⑳', '⒈', '〇',
+    '〡', '\u{1d7d8}', '\u{1d7ff}', '\u{10107}', '\u{11066}',
+];
+/// `char::is_alphabetic` but not ASCII (incl. characters whose case mapping is ASCII: Kelvin sign, long s)
+pub const ALPHA: &[char] = &[
+    'é', 'ß', 'λ', 'Ω', '日', 'ａ', 'Ｚ', '\u{212a}', 'ſ', 'İ', 'ı', 'ª', 'º', 'ǅ', 'ʰ', 'ᴬ', '\u{1d400}', 'я', 'ا',
+];
+/// `char::is_whitespace` / line-breaking characters other than blank, tab, LF, CR
+pub const SPACE: &[char] = &[
+    '\u{b}', '\u{c}', '\u{85}', '\u{a0}', '\u{1680}', '\u{2000}', '\u{2003}', '\u{200a}', '\u{2028}', '\u{2029}',
+    '\u{202f}', '\u{205f}', '\u{3000}', '\u{1c}', '\u{1e}',
+];
+/// look-alikes of the delimiters of the format
+pub const LOOKALIKE: &[char] = &[
+    '＿', '：', '＂', '＼', '∖', '﹨', '″', '“', '”', '‘', '’', '＇', '｛', '｝', '，', '＝', '＃', '﹟', '․',
+];
+/// format characters, non-characters, plane boundaries, encoding-length boundaries
+pub const OTHER: &[char] = &[
+    '\u{feff}', '\u{200b}', '\u{200d}', '\u{ad}', '\u{301}', '\u{fffd}', '\u{ffff}', '\u{fffe}', '\u{10ffff}',
+    '\u{e000}', '\u{d7ff}', '\u{10000}', '🦀', '\u{1f600}', '\u{80}', '\u{9f}', '\u{ff}', '\u{100}', '\u{7ff}',
+    '\u{800}', '\u{0}', '\u{7f}', '\u{1b}',
+];
+
+fn hostile_char(r: &mut Rng) -> char {
+    match r.weighted(&[4, 3, 2, 2, 2, 2, 1]) {
+        0 => (r.below(0x80) as u8) as char, // every ASCII character, incl. all punctuation and C0 controls
+        1 => *r.pick(NUMERIC),
+        2 => *r.pick(ALPHA),
+        3 => *r.pick(SPACE),
+        4 => *r.pick(LOOKALIKE),
+        5 => *r.pick(OTHER),
+        _ => loop {
+            // any Unicode scalar value
+            if let Some(c) = char::from_u32(r.below(0x11_0000) as u32) {
+                break c;
+            }
+        },
+    }
+}
+
+const WORDS: &[&str] = &["a", "b", "lat", "reqs", "x_1", "Total", "http", "ns", "le", "quantile", "A9", "__name__", ":"];
+
+/// Superset of `util::wild_string`: the old classes, plus strings over the wide alphabet, random scalar
+/// values, long strings (hostile characters at positions ≥ 64 and at the very end) and single hostile
+/// characters in leading / inner / trailing position.
+pub fn hostile_string(r: &mut Rng, nonempty: bool) -> String {
+    let mut s = String::new();
+    match r.weighted(&[5, 5, 2, 3, 3]) {
+        0 => return wild_string(r, nonempty),
+        1 => {
+            for _ in 0..r.range(1, 10) {
+                match r.below(3) {
+                    0 => s.push_str(r.pick_str(WORDS)),
+                    _ => s.push(hostile_char(r)),
+                }
+            }
+        }
+        2 => {
+            for _ in 0..r.range(1, 8) {
+                s.push(hostile_char(r));
+            }
+        }
+        3 => {
+            let ident: Vec<char> = "abcxyzABZ019_:".chars().collect();
+            let len = r.range(50, 300);
+            let mut cs: Vec<char> = (0..len).map(|_| *r.pick(&ident)).collect();
+            for _ in 0..r.range(1, 6) {
+                let pos = match r.below(4) {
+                    0 => len - 1,
+                    1 => r.below(len),
+                    _ => 64.min(len - 1) + r.below(len - 64.min(len - 1)),
+                };
+                cs[pos] = match r.below(4) {
+                    0 => *r.pick(&['\\', '"', '\n']),
+                    _ => hostile_char(r),
+                };
+            }
+            s = cs.into_iter().collect();
+        }
+        _ => {
+            if r.chance(1, 2) {
+                s.push_str(r.pick_str(WORDS));
+            }
+            s.push(hostile_char(r));
+            if r.chance(1, 2) {
+                s.push_str(r.pick_str(WORDS));
+            }
+        }
+    }
+    if nonempty && s.is_empty() {
+        s.push_str(r.pick_str(WORDS));
+    }
+    s
+}
+
+fn unescape(s: &str, is_desc: bool) -> Option<String> {
+    let mut o = String::new();
+    let mut it = s.chars();
+    while let Some(c) = it.next() {
+        match c {
+            '\\' => match it.next() {
+                Some('\\') => o.push('\\'),
+                Some('n') => o.push('\n'),
+                Some('"') if !is_desc => o.push('"'),
+                _ => return None,
+            },
+            '\n' => return None,
+            '"' if !is_desc => return None,
+            c => o.push(c),
+        }
+    }
+    Some(o)
+}
+
+/// Exhaustive over single characters: EVERY Unicode scalar value in leading, inner and trailing position
+/// through the two name sanitizers and the escaper (implementation-side oracles; at most 3 reports per
+/// oracle), and contiguous blocks through the model (`quick`: U+0000–U+2FFF, the full-width forms, the
+/// mathematical digits, the Aegean numbers; `thorough`: all 17 planes).
+fn sweep(cfg: &Cfg, out: &mut Out) {
+    out.case("sweep all scalar values");
+    let mut reported: std::collections::BTreeMap<&'static str, u32> = Default::default();
+    let mut fail = |out: &mut Out, what: &'static str, detail: String| {
+        let n = reported.entry(what).or_insert(0);
+        *n += 1;
+        if *n <= 3 {
+            out.oracle_fail(what, &detail);
+        }
+    };
+    let mut n = 0u64;
+    for cp in 0..0x11_0000u32 {
+        let Some(c) = char::from_u32(cp) else { continue };
+        n += 1;
+        let ok_name = |c: char, first: bool| c == '_' || c == ':' || c.is_ascii_alphabetic() || (!first && c.is_ascii_digit());
+        let ok_label = |c: char, first: bool| c == '_' || c.is_ascii_alphabetic() || (!first && c.is_ascii_digit());
+        for (s, pos) in [(format!("{c}"), 0usize), (format!("a{c}b"), 1), (format!("ab{c}"), 2)] {
+            let m = f::sanitize_metric_name(&s);
+            let l = f::sanitize_label_key(&s);
+            if !crate::expo::is_metric_name(&m) {
+                fail(out, "sanitize_metric_name: not a metric name", format!("input {:?} (U+{:04X} at {}) -> {:?}", s, cp, pos, m));
+            }
+            if !crate::expo::is_label_name(&l) {
+                fail(out, "sanitize_label_key: not a label name", format!("input {:?} (U+{:04X} at {}) -> {:?}", s, cp, pos, l));
+            }
+            // a character the grammar allows at its position is kept, any other becomes `_`, nothing is added or dropped
+            let want_m: String = s.chars().enumerate().map(|(i, x)| if ok_name(x, i == 0) { x } else { '_' }).collect();
+            let want_l: String = s.chars().enumerate().map(|(i, x)| if ok_label(x, i == 0) { x } else { '_' }).collect();
+            if m != want_m {
+                fail(out, "sanitize_metric_name: not 'keep valid characters, replace the others by _'", format!("input {:?} (U+{:04X}) -> {:?}", s, cp, m));
+            }
+            if l != want_l {
+                fail(out, "sanitize_label_key: not 'keep valid characters, replace the others by _'", format!("input {:?} (U+{:04X}) -> {:?}", s, cp, l));
+            }
+            let v = f::sanitize_label_value(&s);
+            match crate::expo::parse_line(&format!("m{{k=\"{}\"}} 1", v)) {
+                Ok(crate::expo::PLine::Sample { ref labels, .. }) if labels.len() == 1 && labels[0].1 == v => {}
+                other => fail(out, "sanitize_label_value: value escapes its quotes", format!("input {:?} (U+{:04X}) -> {:?} :: {:?}", s, cp, v, other)),
+            }
+            if unescape(&v, false).as_deref() != Some(s.as_str()) {
+                fail(out, "sanitize_label_value: does not unescape to the input", format!("input {:?} (U+{:04X}) -> {:?}", s, cp, v));
+            }
+            let d = f::sanitize_description(&s);
+            match crate::expo::parse_line(&format!("# HELP m {}", d)) {
+                Ok(crate::expo::PLine::Help { ref doc, .. }) if *doc == d => {}
+                other => fail(out, "sanitize_description: docstring leaves its line", format!("input {:?} (U+{:04X}) -> {:?} :: {:?}", s, cp, d, other)),
+            }
+            if unescape(&d, true).as_deref() != Some(s.as_str()) {
+                fail(out, "sanitize_description: does not unescape to the input", format!("input {:?} (U+{:04X}) -> {:?}", s, cp, d));
+            }
+        }
+    }
+    out.count_n("sweep.scalars", n);
+    let ranges: &[(u32, u32)] = if cfg.thorough {
+        &[(0, 0x11_0000)]
+    } else {
+        &[(0, 0x3000), (0xff00, 0xfff0), (0x1d7c0, 0x1d800), (0x10100, 0x10140), (0x10_ff00, 0x11_0000)]
+    };
+    for (lo, hi) in ranges {
+        let mut cp = *lo;
+        while cp < *hi {
+            let chunk: String = (cp..(cp + 256).min(*hi)).filter_map(char::from_u32).collect();
+            cp += 256;
+            if chunk.is_empty() {
+                continue;
+            }
+            // non-leading position for every character of the block
+            let s = format!("a{}", chunk);
+            out.op(&format!("c08 name {}", hexs(&s)), &hexs(&f::sanitize_metric_name(&s)));
+            out.op(&format!("c08 lkey {}", hexs(&s)), &hexs(&f::sanitize_label_key(&s)));
+            out.op(&format!("c08 lval {}", hexs(&s)), &hexs(&f::sanitize_label_value(&s)));
+            out.op(&format!("c08 desc {}", hexs(&s)), &hexs(&f::sanitize_description(&s)));
+            out.count("sweep.model_blocks");
+        }
+    }
+    out.nontrivial();
+}
+
 pub fn run(cfg: &Cfg, out: &mut Out) {
     let root = Rng::new(cfg.seed);
     // corpus first: past findings and the hand-picked nasty inputs
@@ -72,35 +275,69 @@ pub fn run(cfg: &Cfg, out: &mut Out) {
         "\\\\\\",
         "\\n",
         "\\\\n\"",
+        // non-ASCII numerics / letters / white space in non-leading position (seed C08-4 and its class)
+        "x²",
+        "a½b٣c５dⅧ",
+        "²x",
+        "k\u{212a}ſ",
+        "a\u{2029}b\u{b}c\u{c}d\u{85}e",
+        "it's $5 (50%) <b>&amp;</b> [x] ^~`!*+;?",
+        "＂＼ｎ",
     ];
     out.case("corpus");
     for s in corpus {
         emit_fn_ops(out, s);
     }
+    // a long string: hostile characters beyond position 64 and at the very end
+    let long: String = format!("{}\\\"\n²{}\\", "a".repeat(70), "b9".repeat(100));
+    emit_fn_ops(out, &long);
+    sweep(cfg, out);
+    let floats: Vec<String> = [
+        f64::INFINITY, f64::NEG_INFINITY, f64::NAN, -0.0, f64::MAX, f64::MIN_POSITIVE, 5e-324, 0.1, 1e21, 1e-7, 0.005,
+        123456789.123456789,
+    ]
+    .iter()
+    .map(|x| x.to_string())
+    .collect();
     for i in 0..cfg.cases {
         let mut r = root.fork(i as u64);
         out.case(&format!("seed={} i={}", cfg.seed, i));
-        let s = wild_string(&mut r, false);
+        let s = hostile_string(&mut r, false);
         out.count(&format!("strclass.{}", class_of(&s)));
+        out.count(&format!("strlen.{}", match s.chars().count() { 0 => "0", 1..=8 => "1-8", 9..=63 => "9-63", _ => "64+" }));
+        if s.chars().any(|c| !c.is_ascii() && c.is_numeric()) {
+            out.count("strhas.nonascii_numeric");
+        }
         if class_of(&s) != "plain" && class_of(&s) != "empty" {
             out.nontrivial();
         }
         emit_fn_ops(out, &s);
-        // write_metric_line with all parts
-        let name = f::sanitize_metric_name(&wild_string(&mut r, true));
+        // write_type_line
+        let name = f::sanitize_metric_name(&hostile_string(&mut r, true));
+        let ty = *r.pick(&["counter", "gauge", "histogram", "summary", "untyped"]);
+        let mut tb = String::new();
+        f::write_type_line(&mut tb, &name, ty);
+        out.op(&format!("c08 type {} {}", hexs(&name), hexs(ty)), &hexs(&tb));
+        match crate::expo::parse_line(tb.strip_suffix('\n').unwrap_or("\n")) {
+            Ok(crate::expo::PLine::Type { name: ref n, ty: ref t }) if *n == name && t == ty => {}
+            other => out.oracle_fail("write_type_line: not the TYPE line meant", &format!("{:?} :: {:?}", other, tb)),
+        }
+        // write_metric_line with all parts (up to 9 labels: the comma / `first` logic)
         let suffix: Option<&'static str> = *r.pick(&[None, Some("bucket"), Some("sum"), Some("count")]);
-        let nlabels = r.below(4);
+        let nlabels = r.weighted(&[3, 3, 3, 3, 1, 1, 1, 1, 1, 1]);
         let labels: Vec<String> = (0..nlabels)
             .map(|_| {
-                let k = wild_string(&mut r, true);
-                let v = wild_string(&mut r, false);
+                let k = hostile_string(&mut r, true);
+                let v = hostile_string(&mut r, false);
                 format!("{}=\"{}\"", f::sanitize_label_key(&k), f::sanitize_label_value(&v))
             })
             .collect();
-        let extra: Option<(&'static str, String)> = match r.below(3) {
+        let extra: Option<(&'static str, String)> = match r.below(4) {
             0 => None,
             1 => Some(("le", r.pick(&["0.5", "1", "+Inf", "0.005"]).to_string())),
-            _ => Some(("quantile", r.pick(&["0", "0.5", "0.99", "1"]).to_string())),
+            2 => Some(("quantile", r.pick(&["0", "0.5", "0.99", "1"]).to_string())),
+            // `Display for f64` of non-finite / extreme bounds (what `set_buckets(&[f64::INFINITY])` leads to)
+            _ => Some((*r.pick(&["le", "quantile"]), r.pick(&floats).clone())),
         };
         let value = r.pick(&["0", "1", "18446744073709551615", "0.25", "NaN", "inf", "-inf", "1e-7"]).to_string();
         let unit: Option<Unit> = if r.chance(1, 3) { None } else { Some(*r.pick(&UNITS)) };
@@ -122,29 +359,39 @@ pub fn run(cfg: &Cfg, out: &mut Out) {
             ),
             &hexs(&buf),
         );
-        // the line must read back as one sample (implementation-side oracle)
+        // the line must read back as one sample (implementation-side oracle): same labels in order, same value
         match crate::expo::parse_line(buf.strip_suffix('\n').unwrap_or(&buf)) {
             Ok(crate::expo::PLine::Sample { labels: pl, value: pv, .. }) => {
-                if pl.len() != labels.len() + extra.is_some() as usize || pv != value || !buf.ends_with('\n') {
+                let mut want: Vec<String> = labels.clone();
+                if let Some((k, v)) = &extra {
+                    want.push(format!("{}=\"{}\"", k, v));
+                }
+                let got: Vec<String> = pl.iter().map(|(k, v)| format!("{}=\"{}\"", k, v)).collect();
+                if got != want || pv != value || !buf.ends_with('\n') {
                     out.oracle_fail("write_metric_line: sample read back differently", &buf);
+                }
+                if let Some((_, v)) = pl.last().filter(|_| extra.is_some()) {
+                    if v.parse::<f64>().is_err() {
+                        out.oracle_fail("write_metric_line: le/quantile value is not a float", &buf);
+                    }
                 }
             }
             other => out.oracle_fail("write_metric_line: not a sample line", &format!("{:?} :: {:?}", other, buf)),
         }
         // key_to_parts
-        let kname = wild_string(&mut r, true);
+        let kname = hostile_string(&mut r, true);
         let klabels: Vec<(String, String)> =
-            (0..r.below(4)).map(|_| (wild_string(&mut r, true), wild_string(&mut r, false))).collect();
+            (0..r.below(4)).map(|_| (hostile_string(&mut r, true), hostile_string(&mut r, false))).collect();
         let mut globals: Vec<(String, String)> = vec![];
         for _ in 0..r.below(3) {
             // sometimes the same name as a key label, so that the override path is taken
             let k = if !klabels.is_empty() && r.chance(1, 2) {
                 klabels[r.below(klabels.len())].0.clone()
             } else {
-                wild_string(&mut r, true)
+                hostile_string(&mut r, true)
             };
             if !globals.iter().any(|(g, _)| *g == k) {
-                globals.push((k, wild_string(&mut r, false)));
+                globals.push((k, hostile_string(&mut r, false)));
             }
         }
         let key = metrics::Key::from_parts(
@@ -152,11 +399,23 @@ pub fn run(cfg: &Cfg, out: &mut Out) {
             klabels.iter().map(|(k, v)| metrics::Label::new(k.clone(), v.clone())).collect::<Vec<_>>(),
         );
         let gl: indexmap::IndexMap<String, String> = globals.iter().cloned().collect();
-        let (pn, pl) = f::key_to_parts(&key, Some(&gl));
+        // `None` and an empty map of default labels are the same thing
+        let use_none = globals.is_empty() && r.chance(1, 2);
+        let (pn, pl) = if use_none { f::key_to_parts(&key, None) } else { f::key_to_parts(&key, Some(&gl)) };
+        out.count(if use_none { "parts.globals=None" } else { "parts.globals=Some" });
         out.op(
             &format!("c08 parts {} {} {}", hexs(&kname), pairs(&klabels), pairs(&globals)),
             &format!("{} {}", hexs(&pn), list(pl.iter().map(|l| hexs(l)))),
         );
+        // every part is grammar-conforming on its own
+        if !crate::expo::is_metric_name(&pn) {
+            out.oracle_fail("key_to_parts: not a metric name", &pn);
+        }
+        match crate::expo::parse_line(&format!("m{{{}}} 1", pl.join(","))) {
+            Ok(crate::expo::PLine::Sample { ref labels, .. }) if labels.len() == pl.len() => {}
+            Ok(_) if pl.is_empty() => {}
+            other => out.oracle_fail("key_to_parts: labels do not read back one by one", &format!("{:?} :: {:?}", other, pl)),
+        }
     }
 }
 
@@ -167,6 +426,177 @@ pub fn run_sessions(cfg: &Cfg, out: &mut Out) {
         let mut r = root.fork(i as u64);
         out.case(&format!("render seed={} i={}", cfg.seed, i));
         crate::prom::session(&mut r, out, crate::prom::Flavour::Strings);
+    }
+    run_adjacent(cfg, out);
+}
+
+// ---------------------------------------------------------------------------------------------
+// stream C: families whose names are `_`-extensions of one another (unit / type suffixes)
+
+fn unit_sfx(u: Option<Unit>) -> String {
+    match u {
+        None | Some(Unit::Count) => String::new(),
+        Some(Unit::Percent) => "_ratio".into(),
+        Some(u) => format!("_{}", u.as_str()),
+    }
+}
+
+/// names a family occupies in the exposition: its own and the sample names its type adds
+fn occupied(fam: &str, ty: &str) -> Vec<String> {
+    match ty {
+        "histogram" => vec![fam.to_string(), format!("{fam}_bucket"), format!("{fam}_sum"), format!("{fam}_count")],
+        "summary" => vec![fam.to_string(), format!("{fam}_sum"), format!("{fam}_count")],
+        _ => vec![fam.to_string()],
+    }
+}
+
+struct AdjMetric {
+    raw: String,
+    kind: u8, // 0 counter 1 gauge 2 distribution
+    desc: Option<(String, Option<Unit>)>,
+    labelled: bool,
+}
+
+/// One session over a fixed list of metrics: describe, update, render. The sanitised names are pairwise
+/// distinct (the property's precondition). Returns whether two families collide (share a name).
+fn adjacent_session(out: &mut Out, unit_suffix: bool, hist: bool, ms: &[AdjMetric]) -> bool {
+    static META: metrics::Metadata<'static> = metrics::Metadata::new("mv", metrics::Level::INFO, None);
+    use metrics::Recorder;
+    let mut b = metrics_exporter_prometheus::PrometheusBuilder::new().set_enable_unit_suffix(unit_suffix);
+    if hist {
+        b = b.set_buckets(&[0.0, 1.0]).unwrap();
+    }
+    let rec = b.build_recorder();
+    let handle = rec.handle();
+    let qtexts = ["0", "0.5", "0.9", "0.95", "0.99", "0.999", "1"];
+    out.op(
+        &format!(
+            "prom new {} . {} . {}",
+            unit_suffix as u8,
+            if hist { "0+1024" } else { "~" },
+            list(qtexts.iter().map(|q| hexs(q)))
+        ),
+        "ok",
+    );
+    let dist_ty = if hist { "histogram" } else { "summary" };
+    let mut fams: Vec<(String, &str, Option<String>)> = vec![]; // (family name, type, HELP text)
+    for m in ms {
+        let san = f::sanitize_metric_name(&m.raw);
+        let kn = metrics::KeyName::from(m.raw.clone());
+        if let Some((d, u)) = &m.desc {
+            match m.kind {
+                0 => rec.describe_counter(kn, *u, d.clone().into()),
+                1 => rec.describe_gauge(kn, *u, d.clone().into()),
+                _ => rec.describe_histogram(kn, *u, d.clone().into()),
+            }
+            out.op(&format!("prom describe {} {} {}", hexs(&m.raw), unit_tok(*u), hexs(d)), "ok");
+        }
+        let unit = m.desc.as_ref().and_then(|d| d.1).filter(|_| unit_suffix);
+        fams.push((
+            format!("{}{}", san, unit_sfx(unit)),
+            ["counter", "gauge", dist_ty][m.kind as usize],
+            m.desc.as_ref().map(|d| f::sanitize_description(&d.0)),
+        ));
+        let labels: Vec<(String, String)> = if m.labelled { vec![("k".into(), "v".into())] } else { vec![] };
+        let key = metrics::Key::from_parts(
+            m.raw.clone(),
+            labels.iter().map(|(k, v)| metrics::Label::new(k.clone(), v.clone())).collect::<Vec<_>>(),
+        );
+        let kt = format!("{} {}", hexs(&m.raw), pairs(&labels));
+        match m.kind {
+            0 => {
+                rec.register_counter(&key, &META).increment(3);
+                out.op(&format!("prom cinc {} 3", kt), "ok");
+            }
+            1 => {
+                rec.register_gauge(&key, &META).set(crate::prom::dy(512));
+                out.op(&format!("prom gset {} d512", kt), "ok");
+            }
+            _ => {
+                rec.register_histogram(&key, &META).record(crate::prom::dy(1024));
+                out.op(&format!("prom hrec {} 1024", kt), "ok");
+            }
+        }
+    }
+    let mut collide = false;
+    for i in 0..fams.len() {
+        for j in 0..i {
+            let (a, b) = (occupied(&fams[i].0, fams[i].1), occupied(&fams[j].0, fams[j].1));
+            if a.iter().any(|x| b.contains(x)) {
+                collide = true;
+            }
+        }
+    }
+    let text = handle.render();
+    out.op("prom render", &crate::prom::canonical(&text));
+    out.nontrivial();
+    if !collide {
+        match crate::expo::check_exposition(&text) {
+            Ok(parsed) => {
+                for (fam, ty, help) in &fams {
+                    if parsed.iter().filter(|p| p.name == *fam && p.ty == *ty && !p.samples.is_empty() && p.help == *help).count() != 1 {
+                        out.oracle_fail(
+                            "render(): a family is not announced once under its name (sanitised name + unit suffix), type and own description",
+                            &format!("family {} ({}) help {:?} :: {:?}", fam, ty, help, text),
+                        );
+                    }
+                }
+            }
+            Err(e) => out.oracle_fail("render(): not well-formed exposition text", &format!("{} :: {:?}", e, text)),
+        }
+    }
+    collide
+}
+
+/// The witness of the Lean theorem `C08.type_lines_unique_false` and random sessions over names that are
+/// `_`-extensions of one another. Sessions in which two families really share a name (a unit suffix or a
+/// type suffix makes one family's name equal to a name of another family — the recorder does not prevent
+/// this, see REPORT / `type_lines_unique_false`) are only compared with the model, which reproduces the
+/// behaviour; all others go through the strict reader as well.
+pub fn run_adjacent(cfg: &Cfg, out: &mut Out) {
+    out.case("adjacent witness: counter a described with Unit::Bytes + counter a_bytes, unit suffix on");
+    let w = [
+        AdjMetric { raw: "a".into(), kind: 0, desc: Some(("d".into(), Some(Unit::Bytes))), labelled: false },
+        AdjMetric { raw: "a_bytes".into(), kind: 0, desc: None, labelled: false },
+    ];
+    let c = adjacent_session(out, true, false, &w);
+    assert!(c, "witness must be classified as a collision");
+    // genuine defect, recorded as a known finding (known_findings.json: K-C08-family-collision): reported on every run
+    out.oracle_fail(
+        "K-C08-family-collision: two families share one name, so the text has two TYPE lines for it and a duplicate series",
+        "unit suffix on: counter `a` described with Unit::Bytes and counter `a_bytes` both render as family a_bytes (Lean: C08.type_lines_unique_false); same for summary `a` + gauge `a_sum`",
+    );
+    out.case("adjacent witness 2: summary a + gauge a_sum");
+    let w2 = [
+        AdjMetric { raw: "a".into(), kind: 2, desc: None, labelled: false },
+        AdjMetric { raw: "a_sum".into(), kind: 1, desc: None, labelled: true },
+    ];
+    adjacent_session(out, false, false, &w2);
+    let root = Rng::new(cfg.seed ^ 0xAD7A);
+    let tails = [
+        "", "_bytes", "_seconds", "_ratio", "_count", "_sum", "_bucket", "_total", "_bytes_sum", "_seconds_count",
+        "_seconds_bucket", ".bytes", "-sum", "_", "__sum", "_percent", "_bytes_bytes", "²bytes",
+    ];
+    let units = [Some(Unit::Bytes), Some(Unit::Seconds), Some(Unit::Percent), Some(Unit::Count), None];
+    for i in 0..cfg.cases / 2 {
+        let mut r = root.fork(i as u64);
+        out.case(&format!("adjacent seed={} i={}", cfg.seed, i));
+        let base = r.pick_str(&["a", "lat", "x:y", "9"]);
+        let mut ms: Vec<AdjMetric> = vec![];
+        let mut tries = 0;
+        let want = r.range(2, 4);
+        while ms.len() < want && tries < 20 {
+            tries += 1;
+            let raw = format!("{}{}", base, r.pick_str(&tails));
+            let san = f::sanitize_metric_name(&raw);
+            if ms.iter().any(|m| f::sanitize_metric_name(&m.raw) == san) {
+                continue;
+            }
+            let desc = if r.chance(2, 3) { Some((hostile_string(&mut r, false), *r.pick(&units))) } else { None };
+            ms.push(AdjMetric { raw, kind: r.below(3) as u8, desc, labelled: r.chance(1, 3) });
+        }
+        let collide = adjacent_session(out, r.chance(3, 4), r.chance(1, 2), &ms);
+        out.count(if collide { "adjacent.colliding (model diff only)" } else { "adjacent.disjoint (strict reader)" });
     }
 }
 
